@@ -485,7 +485,7 @@ func runC03(c *Check) error {
 	//      tokens (white space of every newline style, comments, one-line comments ended by a
 	//      close tag): C08's harness on gaps sampled by token context
 	for _, ver := range []string{"7.4", "5.6"} {
-		tj, err := c.triviaJobs("H_C08", ver, tierEvery(c, 8, 2), thorough, 3_000_000, "")
+		tj, err := c.triviaJobs("H_C08", ver, tierEvery(c, 8, 3), thorough, 3_000_000, "")
 		if err != nil {
 			return err
 		}
